@@ -19,6 +19,10 @@ NOTE = ('Trusted: CrossHair byte-code interpreter and its str/int/list/dict/re m
 
 # id -> (level text, design ref)
 CLAIMED = {
+    'C04': ('The real full_execution.execute on stub test cases with a real sandbox: for every step family as the site where execution '
+            'ends with every kind of ending, with and without --keep, with a misbehaving instruction (chdir, read-only files, '
+            'environment changes, removed cwd), the layout seen from inside the first step, tmp/ staying empty, result/ after act, '
+            'removal/preservation of the sandbox and restoration of cwd and os.environ are as documented.', '4/C04'),
     'C02': ('translate_status against the manual table; the three real result reporters on every kind of result with a symbolic '
             'exit code 0..255 of the action to check; and the chain stub case + symbolic fault plan -> real executor -> real '
             'standalone Processor.process -> real reporter, whose (exit code, stdout, stderr) must equal the documented table applied '
